@@ -180,6 +180,8 @@ func (s *Service) CreatePipe(p Pipe) (PipeDesc, error) {
 	if ok {
 		return PipeDesc{}, errors2.Errorf("the pipe for name %s, already exists", p.Name)
 	}
+	// persist the registry right away: a crash must not lose an acknowledged definition
+	s.savePipes()
 	return res, nil
 }
 
@@ -210,6 +212,9 @@ func (s *Service) DeletePipe(name string) error {
 		s.logger.Warn("Pipe with name ", name, " is not found.")
 	}
 	s.lock.Unlock()
+	if err == nil {
+		s.savePipes()
+	}
 	return err
 }
 
